@@ -40,6 +40,23 @@ DUR = [0, 0, 0.125, 0.25, 0.5]
 KEYS = [1, 2, 3, 4]
 
 
+class FalsyResult(tuple):
+    """A result that is false in a boolean context (a cached result must be recognised by its presence, not its truth)."""
+
+    def __bool__(self):
+        return False
+
+
+def shape(k, n):
+    """The result of execution number n for key k: usually a tuple embedding n; every fourth execution returns None
+    and every fourth a falsy object - both are results like any other and must be cached."""
+    if n % 4 == 3:
+        return None
+    if n % 4 == 1:
+        return FalsyResult((k, type(k).__name__, n))
+    return (k, type(k).__name__, n)
+
+
 class Fail(Exception):
     pass
 
@@ -110,7 +127,7 @@ class RefLRU:
         self.counter[0] += 1
         if self.plan["fail"]:
             raise Fail(k)
-        val = (k, type(k).__name__, self.counter[0])
+        val = shape(k, self.counter[0])
         if self.maxsize == 0:
             return val
         if self.maxsize is not None:
@@ -147,7 +164,7 @@ class SeqRun:
             await sleep(0)
             if plan["fail"]:
                 raise Fail(k)
-            return (k, type(k).__name__, na[0])
+            return shape(k, na[0])
 
         if ttl is None:
             @functools.lru_cache(maxsize=c["maxsize"], typed=c["typed"])
@@ -155,7 +172,7 @@ class SeqRun:
                 ns[0] += 1
                 if plan["fail"]:
                     raise Fail(k)
-                return (k, type(k).__name__, ns[0])
+                return shape(k, ns[0])
         else:
             sf = RefLRU(c["maxsize"], c["typed"], ttl, ns, plan, lambda: anyio.current_time())
 
